@@ -3,6 +3,9 @@
 design     : CostModelsMC walks every registered cost function (integer transcription in CostFormulas.tla)
              over product grids / full channel sweeps, one axis step per transition; TLC checks >= 0, > 0,
              monotone steps, depthwise = generic per group, exact rounding helpers, declared rejections.
+spec->code : CostLifeMC enumerates histories (Eval / Set) on ONE shared layer description; every maximal history is replayed
+             on one real dict: each evaluation is compared with the evaluation of a freshly built identical dict (history
+             independence) and the dict is compared before/after each call (frame condition), also on error paths.
 code->spec : the REAL registered functions (taken from the CostSpec objects of plinio.cost) are evaluated along
              axis chains (full channel range 1..130 in quarter channels, kernels, output sizes, bit-widths);
              TLC (CostModelsTrace) re-checks every property clause on the OBSERVED values and compares each
@@ -13,6 +16,8 @@ from __future__ import annotations
 import json
 import math
 import random
+import re
+import tempfile
 import threading
 from fractions import Fraction
 from typing import Any, Dict, List, Tuple
@@ -132,10 +137,14 @@ class Real:
         return sp
 
     def evaluate(self, fn: Dict[str, str], p: Dict[str, int]) -> Tuple[List[int], bool, str]:
-        """-> (observation, positive bit, note)."""
+        """-> (observation, positive bit, note) on a freshly built description."""
+        return self.evaluate_on(fn, self.spec(fn, p))
+
+    def evaluate_on(self, fn: Dict[str, str], sp: Dict[str, Any]) -> Tuple[List[int], bool, str]:
+        """-> (observation, positive bit, note) on the GIVEN dictionary (which the function may try to alter)."""
         f = self.fns[(fn["m"], fn["l"], fn["pat"])]
         try:
-            r = f(self.spec(fn, p))
+            r = f(sp)
             v = float(r)
         except Exception as e:                                          # noqa: BLE001
             return [-1], False, type(e).__name__
@@ -367,9 +376,137 @@ def helper_scenarios(helpers: List[str], tier: str) -> List[Dict[str, Any]]:
 
 
 # --------------------------------------------------------------------------------------------------
+# histories on ONE shared description (module CostLife): purity / history independence / frame condition
+# --------------------------------------------------------------------------------------------------
+def life_set(l: str, p: Dict[str, int], f: str, v: int) -> Dict[str, int]:
+    """SetFieldOf of CostLife.tla."""
+    q = dict(p)
+    if f == "c":
+        q["cin"] = q["cout"] = v
+    elif f == "k":
+        q["kx"], q["ky"] = v, (v if l == "conv2d" else 1)
+    elif f == "o":
+        q["ox"], q["oy"] = v, (v if l == "conv2d" else 1)
+    else:
+        q[f] = v
+    return q
+
+
+def life_build(real: Real, l: str, p: Dict[str, int], style: str) -> Dict[str, Any]:
+    """A brand-new dictionary for the abstract description p. style 'mps': the activation precision is the entry
+    'in_precision' only (what MPS layers pass); 'diana': 'a_precision' only (what diana's own unit test passes)."""
+    sp = real.spec({"l": l}, p)
+    del sp["a_precision" if style == "mps" else "in_precision"]
+    return sp
+
+
+def life_keys(l: str, f: str, style: str) -> List[str]:
+    lin = l == "linear"
+    return {"cin": ["in_features" if lin else "in_channels"],
+            "cout": ["out_features" if lin else "out_channels", "output_shape"],
+            "c": ["in_channels", "out_channels", "groups", "output_shape"],
+            "k": ["kernel_size"], "o": ["output_shape"], "w": ["w_precision"],
+            "a": ["in_precision" if style == "mps" else "a_precision"], "b": ["_parameters"]}[f]
+
+
+def _snap(x: Any) -> Any:
+    """Value snapshot of a description (tensors by dtype / shape / value)."""
+    if hasattr(x, "dtype") and hasattr(x, "tolist"):
+        return ("tensor", str(x.dtype), tuple(x.shape), repr(x.tolist()), bool(getattr(x, "requires_grad", False)))
+    if isinstance(x, dict):
+        return {k: _snap(v) for k, v in x.items()}
+    if isinstance(x, (tuple, list)):
+        return (type(x).__name__,) + tuple(_snap(v) for v in x)
+    return (type(x).__name__, repr(x))
+
+
+def _frame(before: Dict[str, Any], after: Dict[str, Any]) -> str:
+    if before == after and list(before) == list(after):
+        return "same"
+    added = sorted(set(after) - set(before))
+    removed = sorted(set(before) - set(after))
+    changed = sorted(k for k in set(before) & set(after) if before[k] != after[k])
+    out = []
+    if added:
+        out.append("added " + ",".join(f"{k}={after[k][-1] if isinstance(after[k], tuple) else '...'}" for k in added))
+    if removed:
+        out.append("removed " + ",".join(removed))
+    if changed:
+        out.append("changed " + ",".join(changed))
+    return "; ".join(out) or "reordered keys"
+
+
+def hist_str(actions: List[Dict[str, Any]]) -> str:
+    return " ".join(f"E({a['m']}/{a['pat']})" if a["a"] == "eval" else f"S({a['f']}={a['v']})" for a in actions)
+
+
+def life_execute(real: Real, sc: Dict[str, Any]) -> Dict[str, Any]:
+    l, style, p = sc["l"], sc["style"], dict(sc["init"])
+    shared = life_build(real, l, p, style)          # ONE dict for the whole history
+    keep = []                                       # fresh dicts stay alive: no id() re-use inside a history
+    ev = []
+    for a in sc["actions"]:
+        if a["a"] == "set":
+            p = life_set(l, p, a["f"], a["v"])
+            new = life_build(real, l, p, style)
+            for k in life_keys(l, a["f"], style):
+                if k == "_parameters":
+                    shared[k]["bias"] = new[k]["bias"]          # the owner writes INTO the nested dict
+                else:
+                    shared[k] = new[k]
+            ev.append({"a": "set", "f": a["f"], "v": a["v"]})
+        else:
+            fn = {"m": a["m"], "l": l, "pat": a["pat"]}
+            before = _snap(shared)
+            res, pos, _ = real.evaluate_on(fn, shared)
+            frame = _frame(before, _snap(shared))
+            fresh_d = life_build(real, l, p, style)
+            keep.append(fresh_d)
+            fresh, _, _ = real.evaluate_on(fn, fresh_d)
+            ev.append({"a": "eval", "m": a["m"], "pat": a["pat"], "res": res, "fresh": fresh, "pos": pos, "frame": frame})
+    return {"kind": "life", "l": l, "init": sc["init"], "hist": hist_str(sc["actions"]), "ev": ev}
+
+
+_NODE = re.compile(r'^-?\d+ \[label="((?:[^"\\]|\\.)*)"')
+
+
+def life_scenarios_from_dump(path: str, maxlen: int, style: str) -> List[Dict[str, Any]]:
+    """Every maximal history of CostLifeMC (states with Len(log) = MaxLen) as an abstract scenario; the initial
+    descriptions are read from the initial states of the same dump."""
+    inits: Dict[Tuple[str, int, int], Dict[str, int]] = {}
+    leaves = []
+    with open(path) as fh:
+        for line in fh:
+            m = _NODE.match(line)
+            if not m:
+                continue
+            lab = m.group(1).replace("\\n", "\n").replace('\\"', '"').replace("\\\\", "\\")
+            lg = re.search(r"log = (<<.*?>>)\n/\\ h = ", lab, re.S)
+            l = re.search(r'/\\ l = "(\w+)"', lab).group(1)
+            g = int(re.search(r"\bg \|-> (\d+)", lab).group(1))
+            i0 = int(re.search(r"/\\ i0 = (\d+)", lab).group(1))
+            if lg is None:
+                raise tlc.MachineryError("CostLifeMC dump: cannot find the log in a state label")
+            n = lg.group(1).count("a |->")
+            if n == 0:
+                inits[(l, g, i0)] = tlc.parse_state(lab)["p"]
+            elif n == maxlen:
+                leaves.append((l, g, i0, lg.group(1)))
+    scen = []
+    for l, g, i0, logtxt in leaves:
+        acts = []
+        for e in tlc.parse_value(logtxt):
+            acts.append({"a": "eval", "m": e["m"], "pat": e["pat"]} if e["a"] == "eval" else {"a": "set", "f": e["f"], "v": e["v"]})
+        scen.append({"kind": "life", "l": l, "g": g, "i0": i0, "style": style, "init": inits[(l, g, i0)], "actions": acts})
+    return scen
+
+
+# --------------------------------------------------------------------------------------------------
 def execute(real: Real, sc: Dict[str, Any]) -> Dict[str, Any]:
     """Run one abstract scenario on the real code -> trace (what TLC sees)."""
     k = sc["kind"]
+    if k == "life":
+        return life_execute(real, sc)
     if k == "chain":
         fn = sc["fn"]
         if (fn["m"], fn["l"], fn["pat"]) not in real.fns:
@@ -415,10 +552,12 @@ def _nontrivial(sc: Dict[str, Any]) -> bool:
         return bool(sc.get("varies")) and len(sc["xs"]) >= 2
     if sc["kind"] == "reject":
         return sc.get("n_raised", 0) > 0
-    return sc["kind"] in ("dw", "helper")
+    return sc["kind"] in ("dw", "helper", "life")
 
 
 def _n_points(sc: Dict[str, Any]) -> int:
+    if sc["kind"] == "life":
+        return 2 * sum(1 for a in sc["actions"] if a["a"] == "eval")
     return len(sc.get("xs", sc.get("pts", [0])))
 
 
@@ -460,6 +599,19 @@ def _self_test(traces: List[Dict[str, Any]], verdicts: List[str]) -> int:
         t7 = cp(rj)
         t7["obs"][next(i for i, q in enumerate(t7["pts"]) if q["w"] == 3)] = [0]     # an undeclared precision accepted
         bad.append(("C16.reject", t7))
+    lf = next((t for t in okt if t["kind"] == "life" and t["ev"][-1]["a"] == "eval" and t["ev"][-1]["res"][0] >= 0), None)
+    if lf is not None:
+        t9 = cp(lf)
+        t9["ev"][-1]["frame"] = "added a_precision=8"
+        bad.append(("C16.frame", t9))
+        t10 = cp(lf)
+        t10["ev"][-1]["res"] = limbs(123456789)
+        bad.append(("C16.history", t10))
+    lr = next((t for t in okt if t["kind"] == "life" and t["ev"][-1]["a"] == "eval" and t["ev"][-1]["res"] == [-1]), None)
+    if lr is not None:
+        t11 = cp(lr)
+        t11["ev"][-1].update(res=[0], fresh=[0])           # a rejected description accepted after a history
+        bad.append(("C16.reject", t11))
     if not bad:
         return 0
     vs, _ = tlc.validate_traces("CostModelsTrace", "CostModelsTrace", [b for _, b in bad], workers=4)
@@ -480,7 +632,10 @@ def run(tier: str, seed: int, replay=None) -> int:
               "whole axis (channels 1..130 in quarter channels = 517 values, kernels {1,3,5,7}, output sizes 1..33, bits "
               "{0,2,4,8}) with every other field fixed; plus depthwise/generic tables, rejection tables of the restricted "
               "models and value/gradient tables of the rounding helpers. Non-trivial = the observed cost actually varies "
-              "along the chain (a rejection table with at least one rejection; every dw / helper table).")
+              "along the chain (a rejection table with at least one rejection; every dw / helper table). Plus histories on ONE "
+              "shared description dict: every maximal history of CostLifeMC (first an evaluation, then evaluations of any "
+              "registered function of the layer type / writes of one field, last an evaluation; length 3, thorough also 4), "
+              "each call compared with the same call on a freshly built dict and the dict compared before/after the call.")
     R.assumptions = [
         "valid layer descriptions: >= 1 whole channel on each side (effective channel counts below 1 are outside the quantifier), "
         "depthwise functions only on in = out = groups, NE16 kernels 1x1/3x3, DIANA (w,a) in {(2,8),(8,8)}",
@@ -489,6 +644,8 @@ def run(tier: str, seed: int, replay=None) -> int:
         "exactness of a ceiling helper is claimed for integral arguments; for fractional arguments the clause is 'integer within "
         "one of the exact quotient' (DivAndCeilSTE(16.5, 16) = 1, FloorSTE(4.5, 4) = 1 are accepted)",
         "tolerances: MPIC cycles 2/16000 cycle, MPIC energy relative 1e-6, DIANA 1/160 cycle; all other models exact",
+        "histories: the shared description is built like an MPS layer's (activation precision under 'in_precision' only; thorough "
+        "also diana's 'a_precision' style); field writes replace dictionary entries (bias: inside the nested '_parameters' dict)",
         "NE16 does not declare a weight-precision restriction (w = 3, 16 accepted, w = 0 returns 0 before any check): not claimed",
     ]
     real = Real()
@@ -503,8 +660,21 @@ def run(tier: str, seed: int, replay=None) -> int:
     grow = ["GrowCin", "GrowCout", "GrowC", "GrowKx", "GrowKy", "GrowOx", "GrowOy", "GrowW", "GrowA"]
     design_err: List[BaseException] = []
 
+    life_cfgs = [("CostLifeMC_quick", 3)] + ([("CostLifeMC_thorough", 4)] if tier != "quick" else [])
+    life_dumps: List[Tuple[str, int, int]] = []
+    life_ready = threading.Event()
+
     def _design() -> None:
         try:
+            # histories on one shared description: enumerated first, the dump is replayed by the main thread
+            for cfg, maxlen in life_cfgs:
+                dot = tempfile.mktemp(prefix="c16-life-", suffix=".dot", dir=tlc.scratch())
+                res = R.design("CostLifeMC", cfg, workers=4, dump_dot=dot, timeout=3000)
+                life_dumps.append((dot, maxlen, res.distinct))
+            life_ready.set()
+            # sanity: the three impure variants and "no evaluation is ever rejected" must FAIL
+            for cfg in ("CostLifeMC_setdefault", "CostLifeMC_memo_id", "CostLifeMC_pop", "CostLifeMC_rejects"):
+                R.design("CostLifeMC", cfg, expect_ok=False, workers=2)
             for i, cfg in enumerate(QUICK_DESIGN if tier == "quick" else THOROUGH_DESIGN):
                 R.design("CostModelsMC", cfg, workers=8, coverage=(i == 0),
                          require_cov=[f"CostModelsMC!{a}" for a in grow] if i == 0 else (), timeout=6000)
@@ -514,6 +684,7 @@ def run(tier: str, seed: int, replay=None) -> int:
             R.design("CostModelsMC", "CostModelsMC_fracceil", expect_ok=False, workers=2)
         except BaseException as e:                                      # noqa: BLE001
             design_err.append(e)
+            life_ready.set()
 
     th = threading.Thread(target=_design, daemon=True)
     th.start()
@@ -541,12 +712,34 @@ def run(tier: str, seed: int, replay=None) -> int:
     R.sample({"scenario": {"helper": ex["h"], "N": 16, "gin": ex["gin"]}, "xs (quarters)": tx["xs"][60:70], "val*4": tx["val"][60:70],
               "gout": tx["gout"][60:70]})
 
+    # 3. histories on one shared dict (CostLife): every maximal history TLC enumerated ---------------------
+    life_ready.wait()
+    if design_err:
+        raise design_err[0]
+    lscen: List[Dict[str, Any]] = []
+    for dot, maxlen, distinct in life_dumps:
+        part = life_scenarios_from_dump(dot, maxlen, "mps")
+        if not part:
+            raise tlc.MachineryError("CostLifeMC dump contains no maximal history")
+        lscen += part
+        if maxlen == 3 and tier != "quick":       # diana's own key style, on the histories that ask diana
+            lscen += [dict(sc, style="diana") for sc in part if any(a.get("m") == "diana_latency" for a in sc["actions"])]
+    ltraces = [execute(real, sc) for sc in lscen]
+    R.extra["histories_on_shared_description"] = len(lscen)
+    R.extra["evaluations_in_histories"] = sum(_n_points(sc) for sc in lscen)
+    n_pts += R.extra["evaluations_in_histories"]
+    R.extra["points_evaluated_on_real_code"] = n_pts
+    ex = next(i for i, sc in enumerate(lscen) if sc["actions"][0].get("m") == "diana_latency" and sc["actions"][1].get("f") == "a")
+    R.sample({"scenario": {k: lscen[ex][k] for k in ("l", "style", "init", "actions")}, "observed": ltraces[ex]["ev"]})
+
     th.join()
     if design_err:
         raise design_err[0]
+    lverdicts = R.validate("CostModelsTrace", "CostModelsTrace", ltraces, lscen, nontrivial=_nontrivial, key=_key,
+                           label="histories on one shared description", workers=8, chunk=30000)
     verdicts = R.validate("CostModelsTrace", "CostModelsTrace", traces, scen, nontrivial=_nontrivial, key=_key,
                           label="real cost functions", workers=8, chunk=600)
-    R.extra["corrupted_traces_rejected"] = _self_test(traces, verdicts)
+    R.extra["corrupted_traces_rejected"] = _self_test(traces + ltraces, verdicts + lverdicts)
     R.evaluations = n_pts
     R.exhaustive = False
     return R.finish()
